@@ -163,7 +163,8 @@ func init() {
 	propRegistry = append(propRegistry, c04)
 
 	c05 := &Property{ID: "C05", Pkgs: []string{"db"}, Bounds: map[string]string{"secrets_per_state": "2 / 3", "tamper classes": "foreign KEK, DB spliced from another database, DEK spliced, context swap, arbitrary bytes as DB, arbitrary bytes as DEK"}}
-	for _, n := range []string{"Confidential", "Tamper", "KEKList", "KEKGet", "KEKPut", "KEKActivate", "KEKDeleteVersion", "KEKDelete", "AuditFile"} {
+	for _, n := range []string{"Confidential", "Tamper", "KEKList", "KEKGet", "KEKPut", "KEKActivate", "KEKDeleteVersion", "KEKDelete", "AuditFile",
+		"ReopenedPut", "ReopenedActivate", "ReopenedDeleteVersion", "ReopenedDelete"} {
 		c05.Harnesses = append(c05.Harnesses, &HarnessSpec{Name: "verifHarnessC05" + n, Pkg: "db", Stubs: dbEnvStubs,
 			Params: map[string]int{"secrets": 2, "versions": 2}, ThoroughParams: map[string]int{"secrets": 3, "versions": 3},
 			ExpectReach: []string{"end"}, NoNative: envNote, Desc: "at rest: " + n})
